@@ -235,7 +235,7 @@ EXTRA2 = {
  'C12': 'The in-memory field limit handed to size_ok is content_length_limit(). Saving an upload keeps every byte (C12.R7): the reading side is cleared and rewound and the buffer synchronised before the bytes move, in-memory uploads are copied out, on-disk ones renamed and copied only after a failed rename, save_by_copy writes the whole stream in binary mode. The upload stream buffer returns characters only through to_int_type / unsigned char (C12.R8: 0xFF must not read as end of file). The limits compared are the configured ones (C12.R9): each from the settings entry of its own name and key, KB limits scaled by exactly 1024, accessors read / write their own member.',
  'C13': 'normalize_path never yields a climbing path for any input up to 6 (8 thorough) bytes (abstract interpretation by byte class); an alias applies only on a whole-component prefix, at most once, with the target of the tested alias; the unchecked branch returns root + path minus one trailing separator. Only / separates path components in this configuration (E3 over every byte) and the document root and alias targets are stored only after canonical() resolved them (C13.R7).',
  'C14': 'Form text widgets validate the whole value, mark invalid text, and compare both limits with the code-point count. The accept set of every single-byte validator equals the defined non-control characters of its code pages (reference: Python codec tables); the whole-string UTF-8 validators ask the decoder once per code point, in order, and count one per code point (decoder summarised); dispatch by name hands (begin,end,count) to the registered validator, falls back through a stop-conversion to UTF-8, and the single-byte and conversion-based filters keep good text and replace or drop the rest; encoding names compare by their lower-cased alphanumerics. An out-of-bounds access or a value-returning function falling off its end met during abstract interpretation is reported as a violation (rule Cnn.BOUNDS). The iconv back-end never ends a stop conversion normally after a failed step other than E2BIG (C14.R6).',
- 'C15': 'Buffered filterbuf keeps byte order; base64url range drivers hand every block to the block codec at matching offsets into an exactly sized buffer for lengths 0..40; urldecode continues exactly behind each unit. Template filters: operator() of escape / urlencode / base64_urlencode diverts the stream into the converting buffer before the value is rendered (C15.R8); the buffered filterbuf is checked against the std::streambuf put-area protocol by abstract interpretation - every byte put reaches convert once, in order, with the original buffer as sink, release restores the stream, a failing convert surfaces as EOF / failbit / -1 (C15.R9). filterbuf::overflow tests EOF on the int (C15.R9). numeric<T> (header template, instantiated in an analysis-only unit) echoes rejected input only escaped (C15.R2); copies of the filter classes carry every member (C15.R8).',
+ 'C15': 'Buffered filterbuf keeps byte order; base64url range drivers hand every block to the block codec at matching offsets into an exactly sized buffer for lengths 0..40; urldecode continues exactly behind each unit. Template filters: operator() of escape / urlencode / base64_urlencode diverts the stream into the converting buffer before the value is rendered (C15.R8); the buffered filterbuf is checked against the std::streambuf put-area protocol by abstract interpretation - every byte put reaches convert once, in order, with the original buffer as sink, release restores the stream, a failing convert surfaces as EOF / failbit / -1 (C15.R9). filterbuf::overflow tests EOF on the int (C15.R9). numeric<T> (header template, instantiated in an analysis-only unit) echoes rejected input only escaped (C15.R2); copies of the filter classes carry every member (C15.R8). What urldecode takes for a %XX escape is decided by xdigit(), which is true for exactly 0-9 a-f A-F (C15.R3).',
  'C16': 'md5_process reads the block it is handed. Buffering and padding of the bundled MD5 and SHA-1 for every pending-byte level x piece length (the stream is tiled into 64-byte blocks in order, remainder kept, bit count with carry, RFC 1321 / FIPS 180 padding and length bytes, state words read out in the right byte order); where HMAC key bytes go (zero-extended short key in both pads, long key hashed then used for both, outer hash fed the whole inner digest); key objects (key file minus trailing blanks reaches the hex decoder, every pair decoded in place, copies take data and size, reset leaves the empty key). The compression arithmetic itself is left to the pinned known-answer tests.',
  'C17': 'The recorded event set of a descriptor is the one the reactor was armed with. Thread pool liveness shape (C17.R13): one worker thread per index, a worker leaves only on shutdown, takes only from a non-empty queue, waits only on an empty one, invokes a held job, stop() joins every worker, cancel searches the whole queue; the lockset rule treats a method that only constructors / destructors call as an entry point. Teardown and adapters (C17.R14): close() reaches cancel() for non-owning devices too, the connect adapter hands on every error except exactly select_failed, a cancelled descriptor is removed from the reactor on every path. Read / write until done completes with the accumulated byte count (C17.R10).',
  'C18': 'read_all / write_all transfer exactly n bytes or fail and terminate (end of file fails instead of spinning); success hands out the verified bytes (empty only for stored size 0); in cross-process mode a descriptor is kept only under an exclusive fcntl lock on the file the name still refers to. Multi-process mode: the mutex table is a MAP_SHARED mapping of lock_size_ process-shared mutexes; crc32_calc::process_bytes covers [ptr, ptr+n) once, in order, chained (C18.R7, E3 with the CRC primitive as recorder).',
